@@ -1325,6 +1325,75 @@ def attribute(ctx, case, out, fmt, form, info, model_agrees, what):
     return ids
 
 
+ANF_MAX_VARS = 10
+
+
+def anf_monomials(j):
+    """the printed/real ANF tree as a set of monomials (each a frozenset of variable names; the empty one is
+    `True`); None when the tree is not a Zhegalkin polynomial"""
+    def mono(c):
+        if c[0] == "tt":
+            return frozenset()
+        if c[0] == "sym":
+            return frozenset([c[1]])
+        if c[0] == "and" and all(x[0] == "sym" for x in c[1:]):
+            return frozenset(x[1] for x in c[1:])
+        return None
+
+    if j[0] == "ff":
+        return set()
+    ms = [mono(c) for c in j[1:]] if j[0] == "xor" else [mono(j)]
+    if any(m is None for m in ms) or len(set(ms)) != len(ms):
+        return None
+    return set(ms)
+
+
+def check_anf_model(ctx, res, case, log):
+    """the model computes `to_anf` (QV/Model/Anf.lean, theorem anf_of_table_sound): for every logged call of
+    the tool's `to_anf` over at most ANF_MAX_VARS variables the model's ANF of the logged input is compared with
+    the logged output - same sorted variables, same set of monomials, same text under sympy's str"""
+    todo = []
+    for e in log.get("nf") or []:
+        if e[0] != "anf" or isinstance(e[2], dict) or e[1][0] == "?" or e[2][0] == "?":
+            continue
+        if len(set(B.syms_json(e[1]))) > ANF_MAX_VARS:
+            res.histogram["anf-model-vs-tool:skipped(more than 10 variables)"] = res.histogram.get(
+                "anf-model-vs-tool:skipped(more than 10 variables)", 0) + 1
+            continue
+        todo.append(e)
+    if not todo:
+        return
+
+    def after(replies):
+        if replies is None:
+            return []
+        for e, rep in zip(todo, replies):
+            res.histogram["anf-model-vs-tool:compared"] = res.histogram.get("anf-model-vs-tool:compared", 0) + 1
+            sub = dict(case, anf_input=e[1])
+            if "driver_error" in rep:
+                res.disagree(sub, "model error (c17.anf)", model=rep)
+                continue
+            real = anf_monomials(e[2])
+            mine = {frozenset(m) for m in rep["monomials"]}
+            show = lambda ms: None if ms is None else sorted(sorted(m) for m in ms)
+            if rep["monomials_rounds"] != rep["monomials"]:
+                res.disagree(sub, "model: sympy's rounds and the transform by halves give different monomials", model=rep)
+            elif rep["vars"] != sorted(set(B.syms_json(e[1]))):
+                res.disagree(sub, "to_anf: sorted variables differ", code=sorted(set(B.syms_json(e[1]))), model=rep["vars"])
+            elif real is None or real != mine or len(mine) != len(rep["monomials"]):
+                res.disagree(sub, "to_anf: the model's monomials differ from the tool's", code=dict(tree=e[2], monomials=show(real)),
+                             model=show(mine))
+            elif len(e) > 3 and str(render_tree(rep["expr"])) != str(e[3][1]):
+                res.disagree(sub, "to_anf: same monomials, different text", code=str(e[3][1])[:400],
+                             model=str(render_tree(rep["expr"]))[:400])
+            else:
+                k = "anf-model-vs-tool:agree" + (" (>= 2 variables)" if len(rep["vars"]) >= 2 else " (< 2 variables)")
+                res.histogram[k] = res.histogram.get(k, 0) + 1
+        return []
+
+    PENDING.append(([dict(op="c17.anf", expr=e[1]) for e in todo], after, lambda r2: None))
+
+
 def run_bexp_case(ctx, res, script, entry, form, fmt, in_file, out_file, bucket):
     args = []
     if entry is not None:
@@ -1393,6 +1462,7 @@ def run_bexp_case(ctx, res, script, entry, form, fmt, in_file, out_file, bucket)
                 res.notes.append(what)
 
     PENDING.append((reqs, after1, final))
+    check_anf_model(ctx, res, case, out["log"])
     return ok
 
 
@@ -1689,8 +1759,12 @@ def run(ctx: Ctx) -> Result:
         ">= 2 literals (direct DIMACS)"
     )
     res.assumptions = [
-        "sympy to_anf/to_cnf/to_dnf/to_nnf are parameters of the model with the spec NFSpec (semantics-preserving, "
-        "cnf = conjunction of clauses over no new symbols); every call made in a run is logged and validated against that spec",
+        "sympy to_cnf/to_dnf/to_nnf are parameters of the model with the spec NFSpec (semantics-preserving, "
+        "cnf = conjunction of clauses over no new symbols); every call made in a run is logged and validated against that spec; "
+        "to_anf is the tool's own function since /repo fbcfb53 and is modelled (QV/Model/Anf.lean: truth table over the sorted "
+        "symbols, sympy's anf_coeffs rounds, ANFform) and proved to meet that spec (anf_of_table_sound, anf_no_new_symbols, "
+        "anf_meets_NFSpec); every logged to_anf call over <= 10 variables is compared with the model's ANF "
+        "(histogram anf-model-vs-tool:*); sympy's truth_table/ANFform themselves are read, not verified",
         "sympy's str() of an expression is the renderer of the model's output tree; the oracle reads the printed text with its own parser",
         "the iteration order of expr.free_symbols is an input of the model (theorems hold for every duplicate-free order)",
         "script execution (importlib) is not modelled: the model's input is the list of module-level bindings the generated script performs; dunder members of the module are ignored (never QlassF)",
